@@ -849,6 +849,11 @@ func (e *Engine) evalCall(call *ssa.Call, ctx *Ctx, idx int) *Term {
 	if e.P.InRepo(cal) && !e.Atoms[cal] {
 		return e.inlineCall(call, cal, ctx, idx)
 	}
+	// binary.LittleEndian.AppendUintN(b, v) is append(b, <the N/8 little-endian bytes of v>...)
+	if n := shortFn(cal); strings.HasPrefix(n, "(encoding/binary.littleEndian).AppendUint") && len(com.Args) == 3 {
+		le := e.mk(OpCall, "le.bytes"+strings.TrimPrefix(n, "(encoding/binary.littleEndian).AppendUint"), call, e.Eval(com.Args[2], ctx))
+		return wrap(e.mk(OpConcat, "", call, e.Eval(com.Args[1], ctx), le))
+	}
 	args := []*Term{}
 	for _, a := range com.Args {
 		args = append(args, e.Eval(a, ctx))
